@@ -152,6 +152,7 @@ package phase3
 
 //@ func breakLongEdges
 //@   requires g != nil && endsValid(g) && listsApart(g)
+//@   ensures[apart|C03,C12] listsApart(g)
 //@   ensures[bands|C01] endsValid(g) && len(g.Layers) == old(len(g.Layers)) && (forall r int :: 0 <= r && r < len(g.Layers) ==> g.Layers[r] == old(g.Layers[r]))
 //@   ensures[proper|C03] forall j int :: 0 <= j && j < len(g.Edges) ==> g.Edges[j].To.Layer - g.Edges[j].From.Layer <= 1 && g.Edges[j].From.Layer - g.Edges[j].To.Layer <= 1
 //@   loop for(i<len(g.Edges))#1
@@ -214,7 +215,18 @@ package phase3
 
 // execWeightedMedian (C01): what breakLongEdges needs, and bands stored at their own index (wmedianRun). The final
 // write-back reads the snapshot map for every node.
+// (C12) whichever run wins and however it ended, the order that is reported is the order that is written back: past the
+// selection every node's LayerPos is taken from the selected snapshot (chosenPos: a ghost name for that snapshot, tied
+// to the local map by an explicit assumption at the point of selection) on every path that returns.
+//@ spec chosenPos(n *Node) int
 //@ func execWeightedMedian
+//@   requires[|C12] g != nil && endsValid(g) && listsApart(g)
+//@   assume[chosen|C12] before "imonitor.Log(" : forall n *Node :: chosenPos(n) == bestp[n]
+//@   ensures[writeback|C12] old(len(g.Layers)) != 1 ==> (forall j int :: 0 <= j && j < len(g.Nodes) ==> g.Nodes[j].LayerPos == chosenPos(g.Nodes[j]))
+//@   loop range(g.Nodes)#1 index a
+//@     invariant[|C12] forall j int :: 0 <= j && j < a ==> g.Nodes[j].LayerPos == chosenPos(g.Nodes[j])
+//@   loop range(g.Layers)#1 index b
+//@     invariant[|C12] forall j int :: 0 <= j && j < len(g.Nodes) ==> g.Nodes[j].LayerPos == chosenPos(g.Nodes[j])
 //@   requires[|C01] g != nil && endsValid(g) && listsApart(g) && len(g.Layers) >= 1
 //@   requires[|C01] forall r int :: 0 <= r && r < len(g.Layers) ==> g.Layers[r] != nil && g.Layers[r].Index == r
 
@@ -232,6 +244,7 @@ package phase3
 //@   assume[posinit|C01] before "layers := g.Layers" : posOK(p)
 //@   loop range(layers)#1 index r1
 //@     invariant[|C01] p != nil && posOK(p)
+//@   ensures[snapshotmap|C12] result1 != nil
 //@   assert[snapshot|C12] before "return bestx, bestp" : bestp != nil && p != nil && bestp != p.positions
 //@   loop for(i<params.maxiter)#1
 //@     invariant[|C01] p != nil && posOK(p)
